@@ -300,9 +300,12 @@ func (b *Batcher) trySendBatchAndUnlock(batch *Batch) {
 	batch.seq = b.outSeq
 	b.outSeq++
 	b.batch = nil
-	b.mu.Unlock()
 
+	// Send under the mutex: Stop closes fullBatches under the same mutex, so
+	// it can't close the channel between the shouldStop check and this send.
+	// The send never blocks: the channel has room for every existing batch.
 	b.fullBatches <- batch
+	b.mu.Unlock()
 }
 
 func (b *Batcher) getBatch() *Batch {
